@@ -406,6 +406,9 @@ fn totality(e: &str, paths: &[String]) -> String {
     op("partition-or-empty", &mut || { let _ = g.clone().partition_or_empty(); });
     op("partition-or-tree", &mut || { let _ = g.clone().partition_or_tree(); });
     op("into-owned", &mut || { let _ = g.clone().into_owned(); });
+    op("owned-partition", &mut || { let _ = g.clone().into_owned().partition(); });
+    op("owned-queries", &mut || { let o = g.clone().into_owned(); let _ = (o.depth(), o.text(), o.has_root(), o.is_exhaustive(), o.to_string()); });
+    op("partition-captures", &mut || { if let (_, Some(p)) = g.clone().partition() { let _ = p.captures().count(); let _ = p.to_string(); let _ = p.partition(); } });
     op("any", &mut || {
         if let Ok(a) = wax::any([e, e]) {
             let _ = (a.depth(), a.text(), a.has_root(), a.is_exhaustive());
@@ -724,6 +727,7 @@ fn main() {
             },
             "W" => walk::walk_cmd(&args),
             "WP" => walk::walk_programs_cmd(&args),
+            "WR" => walk::walk_real_cmd(&args),
             "NP" => walk::negation_programs_cmd(&args),
             _ => "bad-op".into(),
         }))
